@@ -400,6 +400,29 @@ func CheckC10(t Target, src *choice.Src, st *Stats) *Violation {
 	if c, d := contract(qw, qr, ref.Exit, g); c != "" {
 		return c10Violation("nofault:"+c+":"+classKey(qw), d, qw)
 	}
+	// the same build started twice at the same time (a file watcher firing twice, make -j): into two
+	// files of one directory, or into the very same -o. Each process must keep the contract on its own:
+	// the status of the fault-free run, exit 0 with the complete source, a failure without a trace.
+	if w.OutKind == "file" && !w.AbsInputs && src.Chance("concurrent", 1, 4) {
+		cw := w.Clone()
+		p := &World{OutKind: "file", Out: w.Out, PreOut: w.PreOut, Patterns: append([]string{}, w.Patterns...), Flags: append([]string{}, qw.Flags...),
+			MapSeed: seed64(src, "peer.map"), ListSeed: seed64(src, "peer.list"), RandSeed: seed64(src, "peer.rand"), Clock: w.Clock, Pid: w.Pid + 3, Host: w.Host,
+			Version: w.Version, Commit: w.Commit, Date: w.Date, Dirty: w.Dirty, Env: w.Env, NoGo: w.NoGo}
+		same := src.Bool("concurrent.same-out")
+		if !same {
+			p.Out, p.PreOut = filepath.Join(filepath.Dir(w.Out), "zz_concurrent_peer.go"), nil
+		}
+		cw.Peers, cw.SchedSeed = []*World{p}, seed64(src, "concurrent.sched")
+		cr := Exec(t, cw)
+		if st != nil {
+			st.note(cw, cr)
+			st.Probes["concurrent-executions"]++
+			st.Probes["concurrent-turns"] += len(cr.Turns)
+		}
+		if sig, det := judgeConcurrent(cw, cr, ref, g); sig != "" {
+			return c10Violation(sig, det, w, cw)
+		}
+	}
 	// a report stream that is broken from the first byte (`> /dev/full`): the property does not list it
 	// among the failure causes and the tool may even panic, but status and file effects must still
 	// agree: non-zero status => -o untouched, status 0 => the complete source
@@ -572,6 +595,10 @@ func replayC10(t Target, v *Violation) (string, string) {
 		g = &o
 	}
 	parts := strings.SplitN(v.Sig, ":", 3)
+	if parts[0] == "concurrent" && len(v.Worlds) == 2 {
+		cw := v.Worlds[1]
+		return judgeConcurrent(cw, Exec(t, cw), ref, g)
+	}
 	if parts[0] == "stdout-broken" && len(v.Worlds) == 2 {
 		sr := Exec(t, v.Worlds[1])
 		if sr.Exit != 0 && sr.Exit != -2 && !sr.Out.Same(sr.OutBefore) {
@@ -622,6 +649,32 @@ func replayC10(t Target, v *Violation) (string, string) {
 			pre = "multi:"
 		}
 		return fmt.Sprintf("%s%s:%s:%s", pre, f.OpKind, f.Kind, c), d
+	}
+	return "", ""
+}
+
+// judgeConcurrent: each of two concurrent builds of the same inputs keeps the contract on its own.
+func judgeConcurrent(cw *World, cr, ref *Result, g *FileObs) (string, string) {
+	if len(cr.Peers) != 1 || len(cw.Peers) != 1 {
+		return "", ""
+	}
+	kind := "two-outs"
+	if cleanEq(cw.Out, cw.Peers[0].Out) {
+		kind = "same-out"
+	}
+	for i, r := range []*Result{cr, cr.Peers[0]} {
+		who := []string{"first", "second"}[i]
+		det := fmt.Sprintf("two concurrent builds of the same inputs (%s); the %s process: exit %d, -o before %s, after %s; alone: exit %d\nturns: %s\n%s", kind, who, r.Exit, obs(r.OutBefore), obs(r.Out), ref.Exit, cr.Turns, tail(r.Stdout, 8))
+		switch {
+		case r.Exit < 0:
+			return "concurrent:" + kind + ":crashed", det + "\n" + r.Panic
+		case r.Exit != ref.Exit:
+			return "concurrent:" + kind + ":status-differs-from-solo", det
+		case r.Exit == 0 && g != nil && r.Out.Sha != g.Sha:
+			return "concurrent:" + kind + ":exit0-incomplete-output", det
+		case r.Exit != 0 && !r.Out.Same(r.OutBefore):
+			return "concurrent:" + kind + ":out-changed-on-failure", det
+		}
 	}
 	return "", ""
 }
